@@ -7,7 +7,7 @@ the timed-out call, after a second execution, and at quiescence.
 """
 import sys
 import time
-from mc.explore import Phase
+from mc.explore import Phase, Hang
 from mc import sched
 from checks import sandbox_common as sc
 
@@ -81,27 +81,38 @@ def _observe(sb, n0):
             'raw_output': sb.raw_output}
 
 
-def make_body(programs, k_join, filtered):
+def make_body(programs, k_join, filtered, entry='run'):
     names = list(programs)
 
     def body(ctx):
         pname = names[ctx.choose(len(names), 'program')]
         prog = PROGRAMS[pname]
         snap = sc.GlobalState()
+        if entry == 'call':
+            # the same student code as the body of a function, timed out inside call('go', threaded=True)
+            prog = "def go():\n" + "".join("    " + l + "\n" for l in prog.split("\n") if l)
         sb = sc.contextualize(prog, {'answer.py': prog})
         sb.allowed_time = 5
         sb.data['spin'] = _spin
         sb.data['block'] = _block
+        if entry == 'call':
+            sb.run()
         n0 = len(sc.MAIN_REPORT.feedback)
         S = sched.begin(ctx, k_join, filtered)
         err = err2 = None
         first = second = final = None
         try:
             try:
-                ctx.step('run(threaded=True)')
-                sb.run(threaded=True)
+                if entry == 'call':
+                    ctx.step("call('go', threaded=True)")
+                    sb.call('go', threaded=True)
+                else:
+                    ctx.step('run(threaded=True)')
+                    sb.run(threaded=True)
                 first = _observe(sb, n0)
             except BaseException as e:    # noqa
+                if isinstance(e, Hang):
+                    raise
                 err = e
             if err is None:
                 n1 = len(sb._context)
@@ -112,18 +123,24 @@ def make_body(programs, k_join, filtered):
                     second['probe_value'] = sb.data.get('probe_value')
                     second['own_output'] = sb._context[-1].output if len(sb._context) > n1 else None
                 except BaseException as e:    # noqa
+                    if isinstance(e, Hang):
+                        raise
                     err2 = e
             try:
                 S.drain()
             except BaseException as e:    # noqa
+                if isinstance(e, Hang):
+                    raise
                 err2 = err2 or e
             final = _observe(sb, n0)
             final['probe_value'] = sb.data.get('probe_value')
         finally:
+            if S.horizon_hit:
+                ctx.no_expand = True
             sched.end()
             leaked = snap.diff()
             snap.force()
-        case = {'program': pname, 'schedule': [l for l in S.log][-25:], 'timer_fired': S.timer_fired}
+        case = {'program': pname, 'entry': entry, 'schedule': [l for l in S.log][-25:], 'timer_fired': S.timer_fired}
         ctx.set_sample({'program': pname, 'log': [str(l) for l in S.log][:12]})
         who_last = None
         for l in S.log:
@@ -145,6 +162,10 @@ def make_body(programs, k_join, filtered):
             d['symptom'] = symptom
             ctx.fail(d, **case, **kw)
 
+        if isinstance(err, sched.StepHorizon) or isinstance(err2, sched.StepHorizon):
+            fail('the call does not return: grader thread still running at the step horizon',
+                 which='timed-out call' if err is not None else 'later execution')
+            return
         if err is not None:
             fail('exception escapes the timed-out call', exception=type(err).__name__, message=str(err)[:120])
             if leaked:
@@ -255,18 +276,23 @@ def phases(tier):
                describe='real threads, real 50 ms timer: sanity only')
     if tier == 'quick':
         return [
-            Phase('shared-state-lines-b1', make_body(PROGRAMS, 64, True), bound=1, setup=_setup, chunk=150, horizon_s=60,
+            Phase('shared-state-lines-b1', make_body(PROGRAMS, 64, True), bound=1, setup=_setup, chunk=150, horizon_s=30, max_execs=600000,
                   describe='points = lines touching shared state; all programs; pre-emption bound 1'),
-            Phase('all-lines-b1', make_body(_sub('busy'), 44, False), bound=1, setup=_setup, chunk=150, horizon_s=60,
+            Phase('all-lines-b1', make_body(_sub('busy'), 44, False), bound=1, setup=_setup, chunk=150, horizon_s=30, max_execs=600000,
                   describe='every line of sandbox.py/timeout.py/student code is a point; busy loop; pre-emption bound 1'),
             Phase('shared-state-lines-b2', make_body(_sub('slow_error', 'block'), 18, True), bound=2, setup=_setup, chunk=150,
-                  horizon_s=60, describe='points = lines touching shared state; terminating and blocking student; bound 2'),
+                  horizon_s=30, max_execs=600000, describe='points = lines touching shared state; terminating and blocking student; bound 2'),
+            Phase('call-entry-b1', make_body(_sub('busy', 'printing', 'block', 'slow_error', 'swallow_once'), 40, True, 'call'),
+                  bound=1, setup=_setup, chunk=150, horizon_s=30, max_execs=600000,
+                  describe="the time-out inside call('go', threaded=True); points = lines touching shared state; bound 1"),
             fr]
     return [
-        Phase('all-lines-b1', make_body(PROGRAMS, 90, False), bound=1, setup=_setup, chunk=150, horizon_s=60,
+        Phase('all-lines-b1', make_body(PROGRAMS, 90, False), bound=1, setup=_setup, chunk=150, horizon_s=30,
               describe='every line is a point; all programs; pre-emption bound 1'),
-        Phase('shared-state-lines-b2', make_body(PROGRAMS, 40, True), bound=2, setup=_setup, chunk=150, horizon_s=60,
+        Phase('shared-state-lines-b2', make_body(PROGRAMS, 40, True), bound=2, setup=_setup, chunk=150, horizon_s=30,
               describe='points = lines touching shared state; all programs; pre-emption bound 2'),
         Phase('shared-state-lines-b3', make_body(_sub('slow', 'block'), 16, True), bound=3, setup=_setup, chunk=150,
-              horizon_s=60, max_execs=600000, describe='terminating and blocking student; pre-emption bound 3 (capped)'),
+              horizon_s=30, max_execs=600000, describe='terminating and blocking student; pre-emption bound 3 (capped)'),
+        Phase('call-entry-b2', make_body(PROGRAMS, 40, True, 'call'), bound=2, setup=_setup, chunk=150, horizon_s=30,
+              describe="the time-out inside call('go', threaded=True); all programs; pre-emption bound 2"),
         fr]
